@@ -463,7 +463,7 @@ class Core(object):
                 if lt is not None and lt.parent is not None:
                     lt.parent.insert_before(last, lt)
                 elif lt is not None:
-                    raise NotModelledCore("html5lib calls insertBefore(node, None) here")
+                    self.stack[self.stack.index(lt) - 1].append(last)
                 else:
                     self.stack[0].append(last)
             else:
